@@ -557,6 +557,11 @@ func (in *Interp) load(p Ptr) Value {
 	}
 	if len(in.poison) > 0 {
 		if g, ok := in.poison[p.Base]; ok {
+			switch p.Base.V[p.Idx].(type) {
+			case Ptr, Iface, FuncV, MapV, ChanV:
+				// reference-typed global of an unmodelled package: an opaque handle (any real use aborts)
+				return Opaque{"global " + g + " of a package whose init is not modelled"}
+			}
 			panic(abortf("read of global %s whose package init is not modelled", g))
 		}
 	}
